@@ -33,6 +33,7 @@ type Exec struct {
 	S    *Specs
 	D    *Decls
 	Prop string // property filter for clauses ("" = all)
+	immCells map[string]Val // address term of a write-once cell (parameter captured by a closure, never reassigned) -> its value
 	Mode string // "contract" | "sweep"
 
 	top   *ssa.Function
@@ -93,6 +94,9 @@ type Frame struct {
 	iters    map[ssa.Value]*iterInfo
 	freeVars map[*ssa.FreeVar]Val
 	closures map[ssa.Value]*ssa.MakeClosure
+	mapsFree    bool        // contract lists "maps" in assigns
+	parentFrame *Frame      // the frame this one is inlined into (nil for the top function)
+	cells       []localCell // leaves of local variables whose address never escapes
 	siteCount map[string]int
 	isTop    bool
 	names    map[string]Val // extra names for contract evaluation (results etc.)
@@ -661,6 +665,11 @@ func (fr *Frame) instr(in ssa.Instruction) {
 	case *ssa.Alloc:
 		r := ex.freshRef("alloc_" + sanitize(x.Comment))
 		fr.vals[x] = Val{T: r, S: SInt, G: x.Type()}
+		if nonEscaping(x, 0) {
+			ex.leafAddrs(x.Type().Underlying().(*types.Pointer).Elem(), r, func(arr, addr string) {
+				fr.cells = append(fr.cells, localCell{arr: arr, addr: addr, alloc: x})
+			})
+		}
 		// zero-initialise
 		et := x.Type().Underlying().(*types.Pointer).Elem()
 		if _, isArr := et.Underlying().(*types.Array); !isArr {
@@ -696,6 +705,12 @@ func (fr *Frame) instr(in ssa.Instruction) {
 		fr.nilCheck(addr, x.Addr, x.Pos(), "store")
 		et := x.Addr.Type().Underlying().(*types.Pointer).Elem()
 		ex.store(fr.curMem, et, addr.T, fr.val(x.Val).T)
+		if al, ok := x.Addr.(*ssa.Alloc); ok && writeOnceCell(al, x) {
+			if ex.immCells == nil {
+				ex.immCells = map[string]Val{}
+			}
+			ex.immCells[addr.T] = fr.val(x.Val)
+		}
 	case *ssa.Extract:
 		tv := fr.tuples[x.Tuple]
 		if tv == nil {
@@ -1036,7 +1051,12 @@ func (fr *Frame) unop(x *ssa.UnOp) {
 		if g := rootGlobal(x.X); g != nil && ex.S.ConstGlobals[g.Pkg.Pkg.Path()+"."+g.Name()] && ex.frozen != nil {
 			m = ex.frozen // never-reassigned package-level variable: read its initial value
 		}
-		fr.set(x, ex.load(m, et, a.T))
+		if iv, ok := ex.immCells[a.T]; ok {
+			// write-once cell: its content cannot be changed by anything (no other store exists in the program)
+			fr.vals[x] = Val{T: iv.T, S: iv.S, G: x.Type()}
+		} else {
+			fr.set(x, ex.load(m, et, a.T))
+		}
 		if v, ok := fr.vals[x]; ok {
 			ex.typeAssume(v, x.Type(), fr.curReach, false)
 		}
@@ -1361,6 +1381,123 @@ func (fr *Frame) orderFreeCheck(in ssa.Instruction, mapTerm string) {
 					}
 				}
 			}
+		}
+	}
+}
+
+// writeOnceCell: al is a local variable cell whose only store in the whole program is st, placed in the entry block
+// of its function; every other use is a load, a debug reference or a capture by a closure that only loads it.
+func writeOnceCell(al *ssa.Alloc, st *ssa.Store) bool {
+	if al.Heap == false && len(*al.Referrers()) == 0 {
+		return false
+	}
+	if st.Block() == nil || st.Block().Index != 0 {
+		return false
+	}
+	return onlyLoaded(al, st, 0)
+}
+
+func onlyLoaded(v ssa.Value, st *ssa.Store, depth int) bool {
+	if depth > 3 || v.Referrers() == nil {
+		return false
+	}
+	for _, r := range *v.Referrers() {
+		switch x := r.(type) {
+		case *ssa.Store:
+			if x != st || x.Addr != v {
+				return false
+			}
+		case *ssa.UnOp:
+			if x.Op != token.MUL {
+				return false
+			}
+		case *ssa.DebugRef:
+		case *ssa.MakeClosure:
+			fn, ok := x.Fn.(*ssa.Function)
+			if !ok {
+				return false
+			}
+			for i, b := range x.Bindings {
+				if b == v {
+					if i >= len(fn.FreeVars) || !onlyLoaded(fn.FreeVars[i], nil, depth+1) {
+						return false
+					}
+				}
+			}
+		default:
+			return false
+		}
+	}
+	return true
+}
+
+// localCell: one leaf location of a local variable whose address is only ever used to load from or store to it.
+// Nothing outside the function can reach such a location, so calls and loop-head havocs leave it alone.
+type localCell struct {
+	arr, addr string
+	alloc     *ssa.Alloc
+}
+
+func nonEscaping(v ssa.Value, depth int) bool {
+	if depth > 4 || v.Referrers() == nil {
+		return false
+	}
+	for _, r := range *v.Referrers() {
+		switch x := r.(type) {
+		case *ssa.Store:
+			if x.Addr != v || x.Val == v {
+				return false
+			}
+		case *ssa.UnOp:
+			if x.Op != token.MUL {
+				return false
+			}
+		case *ssa.DebugRef:
+		case *ssa.FieldAddr:
+			if x.X != v || !nonEscaping(x, depth+1) {
+				return false
+			}
+		default:
+			return false
+		}
+	}
+	return true
+}
+
+// preserveCells: after something changed whole memory arrays (a call, a loop-head havoc), non-escaping local cells of
+// this frame and of the frames it is inlined into still hold what they held in before. skip names allocs to leave out.
+func (fr *Frame) preserveCells(before *MemState, skip map[*ssa.Alloc]bool) {
+	ex := fr.ex
+	for f := fr; f != nil; f = f.parentFrame {
+		for _, c := range f.cells {
+			if f == fr && skip[c.alloc] {
+				continue
+			}
+			if _, ok := before.arrays[c.arr]; !ok {
+				if _, ok2 := fr.curMem.arrays[c.arr]; !ok2 {
+					continue
+				}
+			}
+			a, b := ex.memGet(before, c.arr), ex.memGet(fr.curMem, c.arr)
+			if a == b {
+				continue
+			}
+			ex.assume(fmt.Sprintf("(= (select %s %s) (select %s %s))", b, c.addr, a, c.addr), fr.curReach)
+		}
+	}
+}
+
+func rootAlloc(v ssa.Value) *ssa.Alloc {
+	for {
+		switch x := v.(type) {
+		case *ssa.Alloc:
+			return x
+		case *ssa.FieldAddr:
+			v = x.X
+		case *ssa.IndexAddr:
+			v = x.X
+		default:
+			return nil
 		}
 	}
 }
